@@ -51,14 +51,16 @@ Disjoint(p1, s1, p2, s2) ==
 
 OverlapsLive(p, s) == \E g \in LiveSet : ~Disjoint(p, s, live[g].base, live[g].size)
 
+\* is p an allowed answer to a request (size, align) in the current state?  (the first sentence of the property)
+AnswerOK(size, align, p) ==
+  \/ IsNull(p)
+  \/ /\ Aligned(p, align)
+     /\ InSpace(End(p, size))
+     /\ ~OverlapsLive(p, size)
+
 -------------------------------------------------------------------------------
 \* Alloc into the empty slot h; p is what alignedMalloc(size, align) returned
-AllocOK(h, size, align, p) ==
-  /\ live[h] = None
-  /\ \/ IsNull(p)
-     \/ /\ Aligned(p, align)
-        /\ InSpace(End(p, size))
-        /\ ~OverlapsLive(p, size)
+AllocOK(h, size, align, p) == live[h] = None /\ AnswerOK(size, align, p)
 AllocWhy(h, size, align, p) ==
   IF live[h] # None THEN "slot-in-use"
   ELSE IF IsNull(p) THEN "ok"
@@ -90,6 +92,31 @@ CheckAllWhy(rep) ==
   IF Len(rep) # Len(LiveList) \/ \E i \in 1..Len(rep) : rep[i][1] # LiveList[i] THEN "client-table-differs"
   ELSE IF \E i \in 1..Len(rep) : rep[i][2] # 0 THEN "corrupted" ELSE "ok"
 CheckAll(rep) == CheckAllOK(rep) /\ UNCHANGED live
+
+\* A burst: n requests (size, align) in a row, all blocks held at the same time, every one filled with its own
+\* pattern; after the last request `bad` bytes (over all blocks of the burst) differ from what was written; then
+\* all of them are freed.  ps = the non-null answers SORTED by address (sorting is the only thing done outside
+\* the specification), nulls = the number of null answers.  For sorted answers "pairwise disjoint" is the same as
+\* "every block ends before the next one starts" (HeapMC checks this equivalence), which keeps the check linear
+\* for bursts of 65536 calls; each answer must also be allowed with respect to the blocks held in slots.
+AdjacentDisjoint(ps, size) == \A i \in 1..(Len(ps) - 1) : LEA(End(ps[i], size), ps[i + 1])
+PairwiseDisjointSeq(ps, size) == \A i, j \in 1..Len(ps) : i # j => Disjoint(ps[i], size, ps[j], size)
+BurstAnswersOK(size, align, ps) ==
+  /\ \A i \in 1..Len(ps) : ~IsNull(ps[i]) /\ AnswerOK(size, align, ps[i])
+  /\ IsZero(size) \/ AdjacentDisjoint(ps, size)
+BurstOK(n, size, align, ps, nulls, bad) ==
+  /\ Len(ps) + nulls = n /\ nulls >= 0
+  /\ BurstAnswersOK(size, align, ps)
+  /\ bad = 0
+BurstWhy(n, size, align, ps, nulls, bad) ==
+  IF Len(ps) + nulls # n \/ nulls < 0 THEN "client-count-differs"
+  ELSE IF \E i \in 1..Len(ps) : IsNull(ps[i]) THEN "client-count-differs"
+  ELSE IF \E i \in 1..Len(ps) : ~Aligned(ps[i], align) THEN "misaligned"
+  ELSE IF \E i \in 1..Len(ps) : ~InSpace(End(ps[i], size)) THEN "wraps"
+  ELSE IF \E i \in 1..Len(ps) : OverlapsLive(ps[i], size) THEN "overlaps-live-block"
+  ELSE IF ~IsZero(size) /\ ~AdjacentDisjoint(ps, size) THEN "overlaps-live-block"
+  ELSE IF bad # 0 THEN "corrupted" ELSE "ok"
+Burst(n, size, align, ps, nulls, bad) == BurstOK(n, size, align, ps, nulls, bad) /\ UNCHANGED live
 
 \* the client skipped a call that its own discipline forbids (Alloc into a used slot, Free / Check of an empty one)
 SkipOK(kind, h) == IF kind = "Alloc" THEN live[h] # None ELSE live[h] = None
